@@ -746,6 +746,7 @@ class BaseWorkflow(object, metaclass=abc.ABCMeta):
                 self.task_list,
             )
         )
+        finished_any_task = False
         for task in working_and_zero_task_set:
             # check FINISH condition by each dependency
             # SF: if input task is working
@@ -772,6 +773,7 @@ class BaseWorkflow(object, metaclass=abc.ABCMeta):
                         finished = False
                         break
             if finished:
+                finished_any_task = True
                 task.state = BaseTaskState.FINISHED
                 task.remaining_work_amount = 0.0
 
@@ -802,6 +804,11 @@ class BaseWorkflow(object, metaclass=abc.ABCMeta):
                             facility.assigned_task_list.remove(task)
 
                     task.allocated_facility_list = []
+
+        # A task finished in this pass may unlock FF successors that were visited before it:
+        # repeat until nothing changes, so that the result does not depend on the visiting order.
+        if finished_any_task:
+            self.__check_finished(time, error_tol=error_tol)
 
     def __set_est_eft_data(self, time: int):
         input_task_set = set()
